@@ -282,7 +282,9 @@ func (pp *PathComponentPagePattern) hasSamePathComponentsAs(parsedURL *nurl.URL)
 	parsedURLPath := rxEndOrHasSHTML.ReplaceAllString(parsedURL.Path, "")
 
 	urlComponents := strings.Split(parsedURLPath, "/")
-	patternComponents := strings.Split(pp.url.Path, "/")
+	// (from the path of the pattern as well: the extension may follow a later component
+	// than the page number, e.g. /story/[*!]/index.html)
+	patternComponents := strings.Split(rxEndOrHasSHTML.ReplaceAllString(pp.url.Path, ""), "/")
 	passedParamComponent := false
 
 	for i, j := 0, 0; i < len(urlComponents) && j < len(patternComponents); i, j = i+1, j+1 {
